@@ -118,6 +118,7 @@ def run(ctx: Ctx) -> None:
         if n[0] < 1000:
             raise MachineryError(f"only {n[0]} pairs emitted")
         _hugr_level(ctx)
+        _twin_extensions(ctx)
         _registry_histories(ctx, wd, quick)
     finally:
         cleanup(wd)
@@ -228,6 +229,68 @@ def _hugr_level(ctx: Ctx) -> None:
                 return d
             s0, s1 = strip_desc(doc0), strip_desc(doc1)
             if s1 is None or W.canon(s0) != W.canon(s1):
+                ctx.violation(dict(sig, what="serialized document"), case, "unchanged (except the op description)", "changed", clause="Enc(Resolve(h)) = Enc(h)")
+                continue
+            if h0.to_model() != model0:
+                ctx.violation(dict(sig, what="exported model"), case, "unchanged", "changed", clause="Export(Resolve(h)) = Export(h)")
+                continue
+            h0.resolve_extensions(reg)
+            if W.canon(json.loads(h0.to_json())) != W.canon(doc1):
+                ctx.violation(dict(sig, what="idempotence"), case, "unchanged", "changed", clause="resolving twice = once")
+        except Exception as e:  # noqa: BLE001
+            ctx.violation(dict(sig, what=f"exception {type(e).__name__}"), case, "no exception", repr(e)[:300], clause="implementation raised")
+
+
+def _twin_extensions(ctx: Ctx) -> None:
+    """Two nodes of the same generic operation whose type arguments differ only in the extension of a same-named type
+    (e1.Cell / e2.Cell, also nested as P<Cell> and fn(Cell -> Cell)): each node keeps its own signature and arguments under every registry."""
+    import itertools
+
+    from hugr import ops, tys
+    from hugr.build.function import Module
+    from hugr.hugr import Hugr
+    c1 = tys.Opaque("Cell", tys.TypeBound.Any, [], "e1")
+    c2 = tys.Opaque("Cell", tys.TypeBound.Any, [], "e2")
+    for nest, with_op, types_e1, types_e2 in itertools.product(["plain", "P", "fn"], [False, True], [False, True], [False, True]):
+        ctx.evaluations += 1
+        ctx.nontriv(f"twin:{nest}:{with_op}:{types_e1}:{types_e2}")
+
+        def wrap(c):
+            if nest == "plain":
+                return c
+            if nest == "P":
+                return tys.Opaque("P", tys.TypeBound.Any, [c.type_arg()], "e1")
+            return tys.FunctionType([c], [c])
+        t1, t2 = wrap(c1), wrap(c2)
+        m = Module()
+        f = m.define_function("f", [t1, t2])
+        a = f.add_op(ops.Custom("generic", tys.FunctionType([t1], [t1]), "d", "e1", [t1.type_arg()]), f.inputs()[0])
+        b = f.add_op(ops.Custom("generic", tys.FunctionType([t2], [t2]), "d", "e1", [t2.type_arg()]), f.inputs()[1])
+        f.set_outputs(a, b)
+        h0 = Hugr.load_json(m.hugr.to_json())
+        doc0 = json.loads(h0.to_json())
+        model0 = h0.to_model()
+        tdefs = ([{"ext": "e1", "id": "Cell", "bspec": {"b": "Explicit", "bound": "A"}}, {"ext": "e1", "id": "P", "bspec": {"b": "FromParams", "indices": [0]}}] if types_e1 else []) \
+            + ([{"ext": "e2", "id": "Cell", "bspec": {"b": "Explicit", "bound": "A"}}] if types_e2 else [])
+        reg = registry_for(tdefs, [("e1", "generic", "d")] if with_op else [])
+        sig = {"t": "twin", "nest": nest}
+        case = {"registry": {"e1.generic": with_op, "e1 types": types_e1, "e2 types": types_e2}, "type arguments": nest}
+        try:
+            h0.resolve_extensions(reg)
+            kinds = [type(h0[n].op).__name__ for n in h0 if isinstance(h0[n].op, (ops.Custom, ops.ExtOp))]
+            want = ["ExtOp" if with_op else "Custom"] * 2
+            if kinds != want:
+                ctx.violation(dict(sig, what="which operations were replaced"), case, want, kinds, clause="Custom replaced iff its definition is in the registry")
+                continue
+            doc1 = json.loads(h0.to_json())
+
+            def strip(d):
+                d = json.loads(json.dumps(d))
+                for nd in d["nodes"]:
+                    if nd.get("op") == "Extension":
+                        nd["description"] = ""
+                return d
+            if W.canon(strip(doc0)) != W.canon(strip(doc1)):
                 ctx.violation(dict(sig, what="serialized document"), case, "unchanged (except the op description)", "changed", clause="Enc(Resolve(h)) = Enc(h)")
                 continue
             if h0.to_model() != model0:
